@@ -46,20 +46,20 @@ CLAIMED = {
              note='Trusted: clang/opt 14, the obligation table (sa/checks/c10.py), debug-info variable names as site selectors. Host configuration only in quick tier.'),
 }
 ADDED = {
- 'C01': 'engine I/O transition table (progress, ready state), handshake-state reinitialisation on reset, ServerKeyExchange hash by version, key-export seed (RFC 5705), explicit nonce taken from the record, CBC padding length range, ECDH buffer sizes',
- 'C02': 'engine rejection table, CBC block-multiple gates and padding range / length, Poly1305 block decoding (bit provenance), sequence-number encoding, GHASH tail',
+ 'C01': 'engine I/O transition table (progress, ready state), handshake-state reinitialisation on reset, ServerKeyExchange hash by version, key-export seed (RFC 5705), explicit nonce taken from the record, CBC padding length range, ECDH buffer sizes, transcript hash follows the wire bytes',
+ 'C02': 'engine rejection table, CBC block-multiple gates and padding range / length, Poly1305 block decoding (bit provenance), sequence-number encoding, GHASH tail, word layout maps (GHASH)',
  'C03': 'key usage / key type per suite, resumption rules, session invalidation on failure, signature hash comparison shape, ECDSA verifier obligations, FALLBACK_SCSV grid, CertificateVerify hash range, server-name handling, mandatory-check reference of both handshake interpreters',
- 'C04': 'anchor comparison operands, key-usage masks, name comparison vectors, calendar table, OID table, ASN.1 signature length obligations, decode_mod source coverage, unavoidable CA test, mandatory-check reference, minimum RSA size threshold, RSA verifier wrapper obligations',
+ 'C04': 'anchor comparison operands, key-usage masks, name comparison vectors, calendar table, OID table, ASN.1 signature length obligations, decode_mod source coverage, unavoidable CA test, mandatory-check reference, minimum RSA size threshold, RSA verifier wrapper obligations, UTF-8 decoder / encoder tables (RFC 3629)',
  'C05': 'whole-library bounded-copy rule (178 armed sites), engine buffer bounds and offered regions, no resume after failure, status accessors, curve-id range, self-indexed buffer wrap, modpow window room, mandatory-check reference of the key decoders',
  'C06': 'I/O buffers disjoint, close order, renegotiation declined, input-only mode is read-only, engine progress / ready / offered regions, state reinitialisation, close_notify flag kept, CBC split room',
- 'C08': '98 entries incl. ECDSA signers, hash functions on secret data, HMAC key setup; mark audit; bits2int order; intraprocedural OAEP unpadding rule; failed key exchange randomised',
- 'C10': 'keygen forced bits, zero stripping direction, public-exponent gate, modpow temporaries, key-exchange padding coverage, muladd quotient mask, sibling call sequences (i15/i31/i32), decode_mod coverage',
- 'C11': 'muladd zero test, RFC 6979 inputs, P-256 decode conjuncts, ASN.1 length / sign rules, zero-hash verification, final-reduction selector, keygen candidate independence, formula tables, sibling call sequences (i15/i31, m15/m31, m62/m64)',
- 'C12': 'SSE2 / AES-NI lane counters, counter carry chains, CTR counter advance, Poly1305 wrap, block decoding and ctmulq carry ranges, DES EDE schedule, GHASH partial block, empty chunk identity, CBC-dec IV, tail-copy lint, sibling call sequences (aes_big/aes_small)',
- 'C13': 'TLS 1.0 PRF shape, HMAC constant-time window and key handling, MD padding and update chunking, DRBG state update / chunking / seed padding, SHAKE padding and round constants, HKDF blocks / positions / limit, hash state save and restore',
- 'C14': 'chunk completion, authenticated bytes, EAX MAC restart, counter carry chains, empty chunk identity, lane counters, GHASH tail',
- 'C19': 'close order, renegotiation declined / binding / extension required, alert levels and parser state, close_notify flag kept, record type restored before yield, no-renegotiation option, engine progress table, I/O wrapper closes the engine on a failed write',
- 'C20': 'seed fully absorbed, sequence-number encoding, record IV writers, ephemeral key fully drawn, session ID freshness, hello randoms drawn, seeder rules on three configurations',
+ 'C08': 'engine re-runs instances until their own SSA values settle (loop-carried flows); 98 entries incl. ECDSA signers, hash functions on secret data, HMAC key setup; mark audit; bits2int order; intraprocedural OAEP unpadding rule; failed key exchange randomised',
+ 'C10': 'keygen forced bits, zero stripping direction, public-exponent gate, modpow temporaries, key-exchange padding coverage, muladd quotient mask, sibling call sequences (i15/i31/i32), decode_mod coverage, public exponent conversion in key generation',
+ 'C11': 'muladd zero test, RFC 6979 inputs, P-256 decode conjuncts, ASN.1 length / sign rules, zero-hash verification, final-reduction selector, keygen candidate independence, formula tables, sibling call sequences (i15/i31, m15/m31, m62/m64), word layout maps, accumulator re-splits keep every bit',
+ 'C12': 'SSE2 / AES-NI lane counters, counter carry chains, CTR counter advance, Poly1305 wrap, block decoding and ctmulq carry ranges, DES EDE schedule, GHASH partial block, empty chunk identity, CBC-dec IV, tail-copy lint, sibling call sequences (aes_big/aes_small), AES key expansion rule (FIPS 197), word layout maps, accumulator re-splits',
+ 'C13': 'TLS 1.0 PRF shape, HMAC constant-time window and key handling, MD padding and update chunking, DRBG state update / chunking / seed padding, SHAKE padding and round constants, HKDF blocks / positions / limit, hash state save and restore, SHAKE lane complement set',
+ 'C14': 'chunk completion, authenticated bytes, EAX MAC restart, counter carry chains, empty chunk identity, lane counters, GHASH tail, reset is history-free (sa/resetflow.py), word layout maps',
+ 'C19': 'close order, renegotiation declined / binding / extension required, alert levels and parser state, close_notify flag kept, record type restored before yield, no-renegotiation option, engine progress table, I/O wrapper closes the engine on a failed write, discard-input reachable from the closing sequence only',
+ 'C20': 'seed fully absorbed, sequence-number encoding, record IV writers, ephemeral key fully drawn, session ID freshness, hello randoms drawn and fresh per handshake, seeder rules on three configurations',
 }
 NA = {
  'C07': 'outcome independent of chunking is a statement about suspended interpreter state across pushes; only a frozen-bytecode-fragment match would be available statically',
@@ -90,6 +90,7 @@ m = dict(
   dict(name='ENGIO', path='sa/engio.py', serves_properties=['C01', 'C02', 'C05', 'C06', 'C19'], kind_free_text='transition table over the record-engine registers'),
   dict(name='BUFCOPY', path='sa/bufcopy.py, rules/bufcopy_sites.json', serves_properties=['C05'], kind_free_text='whole-library bounded bulk writes and index stores'),
   dict(name='SYM', path='sa/sym.py, sa/bitprov.py, sa/carryai.py', serves_properties=['C02', 'C05', 'C06', 'C10', 'C12', 'C14'], kind_free_text='symbolic normal forms, bit-provenance domain, trace-partitioned intervals for carry chains'),
+  dict(name='RESETFLOW', path='sa/resetflow.py', serves_properties=['C14'], kind_free_text='must-written-fields dataflow through reset entry points and their context-receiving callees: no message-mutable field read before it is rewritten'),
   dict(name='LINTS', path='sa/lints.py, sa/siblings.py, sa/t0mandatory.py, rules/*.json, selftest/lint_bad.c', serves_properties=['C02', 'C03', 'C04', 'C05', 'C10', 'C11', 'C12', 'C13', 'C14'], kind_free_text='whole-library lints with positive controls; sibling agreement; reference tables of reviewed instances'),
  ],
  checks=[dict(property_id=p, quick_cmd='./check %s --tier quick' % p, thorough_cmd='./check %s --tier thorough' % p,
